@@ -171,13 +171,8 @@ def roundtrip_job(job):
             # identical caps and consumers (the in-memory tensor is the reference)
             path3 = path + ".built.h5"
             try:
-                if apt["transforms"] == "scaled":
-                    # transforms that do not preserve the trace vector: FileProcessTensor.compute_caps contracts the
-                    # *transformed* tensors with the transformed trace vectors, SimpleProcessTensor.compute_caps the
-                    # untransformed ones; the two agree exactly when trace.T_in = trace and T_out.trace = trace (every
-                    # basis change does).  The statement of C16 does not fix the meaning of caps for such transforms:
-                    # observation recorded in DESIGN.md, not checked.
-                    raise StopIteration
+                # (transforms that do not preserve the trace vector included: the caps are the contraction of the *transformed*
+                # tensors with the plain trace vector, whatever class holds the tensors)
                 ref = build_from_abstract(dict(apt, caps=[1]))
                 fb = ptmod.FileProcessTensor("write", filename=path3, hilbert_space_dimension=ref.hilbert_space_dimension,
                                              dt=ref.dt, transform_in=ref.transform_in, transform_out=ref.transform_out)
